@@ -397,12 +397,17 @@ static void hll_union_task(Report& rep, const Config& cfg, const std::string& na
   for (size_t i = 0; i < sizeof base / sizeof base[0]; ++i) card.push_back(base[i]);
   if (!cfg.quick()) { card.push_back(3 * k / 32 + 1); card.push_back(3 * k / 4); card.push_back(8 * k); }
   std::sort(card.begin(), card.end()); card.erase(std::unique(card.begin(), card.end()), card.end());
-  for (size_t ai = 0; ai < card.size(); ++ai) for (size_t bi = 0; bi < card.size(); ++bi) for (int ti = 0; ti < 3; ++ti) {
+  // operand sizes relative to the union's lg_max_k: equal, and larger (the union then down-samples its inputs or its gadget)
+  static const int DV[4][2] = {{0, 0}, {2, 0}, {0, 1}, {2, 1}};
+  const int ndv = cfg.quick() ? (lg <= 6 ? 4 : 1) : (lg <= 9 ? 4 : 1);
+  for (size_t ai = 0; ai < card.size(); ++ai) for (size_t bi = 0; bi < card.size(); ++bi) for (int ti = 0; ti < 3; ++ti) for (int dv = 0; dv < ndv; ++dv) {
+    const int da = DV[dv][0], db = DV[dv][1];
+    if (dv > 0 && lg + std::max(da, db) > 21) continue;
     const uint32_t a = card[ai], b = card[bi], o = (ti == 0) ? 0 : (ti == 1 ? std::min(a, b) / 2 : std::min(a, b));
-    const std::string hs = std::string(hc::type_name(hc::TYPES[ti])) + ",a=" + str(a) + ",b=" + str(b) + ",overlap=" + str(o);
+    const std::string hs = std::string(hc::type_name(hc::TYPES[ti])) + ",a=" + str(a) + ",b=" + str(b) + ",overlap=" + str(o) + (dv ? ",lgA=+" + str(da) + ",lgB=+" + str(db) : std::string());
     journal(name, hs);
     StrHist h(hs);
-    hll_sketch A((uint8_t)lg, hc::TYPES[ti]), B((uint8_t)lg, hc::TYPES[(ti + 1) % 3]);
+    hll_sketch A((uint8_t)(lg + da), hc::TYPES[ti]), B((uint8_t)(lg + db), hc::TYPES[(ti + 1) % 3]);
     std::set<uint32_t> coupons;
     for (uint32_t i = 0; i < a; ++i) { A.update((uint64_t)i); coupons.insert(hll_coupon_of(i)); }
     for (uint32_t i = 0; i < b; ++i) { B.update((uint64_t)(a - o) + i); coupons.insert(hll_coupon_of((uint64_t)(a - o) + i)); }
@@ -418,11 +423,20 @@ static void hll_union_task(Report& rep, const Config& cfg, const std::string& na
     for (int rt = 0; rt < 3; ++rt) {
       const hll_sketch r = u.get_result(hc::TYPES[rt]);
       check_hll_sketch(S, "union-result:", r, truth, (double)coupons.size(), h);
+      if (r.get_current_mode() == HLL) {
+        // the registers of a result are a function of the items alone, so its composite estimate (and with it every bound
+        // of an out-of-order result) must be that of a sketch of the result's size fed the same items directly
+        hll_sketch D(r.get_lg_config_k(), HLL_8);
+        for (uint32_t i = 0; i < a; ++i) D.update((uint64_t)i);
+        for (uint32_t i = 0; i < b; ++i) D.update((uint64_t)(a - o) + i);
+        if (D.get_current_mode() == HLL) REQ(S, "union-result:composite-estimate==directly-fed-sketch-of-result-size", hc::near_eq(r.get_composite_estimate(), D.get_composite_estimate(), 1e-9), h(),
+          "result lg_k " + str((int)r.get_lg_config_k()) + " composite " + g17(r.get_composite_estimate()) + " direct " + g17(D.get_composite_estimate()));
+      }
       S.pt();
-      if (rt == 0) S.tag(std::string("hll-union|result-") + hc::mode_name(r.get_current_mode()) + (r.is_out_of_order_flag() ? "|ooo" : "|in-order") + "|A-" + hc::mode_name(A.get_current_mode()) + "|B-" + hc::mode_name(B.get_current_mode()));
+      if (rt == 0) S.tag(std::string(dv ? "hll-union-downsampling|result-" : "hll-union|result-") + hc::mode_name(r.get_current_mode()) + (r.is_out_of_order_flag() ? "|ooo" : "|in-order") + "|A-" + hc::mode_name(A.get_current_mode()) + "|B-" + hc::mode_name(B.get_current_mode()));
     }
   }
-  S.done("lg_k " + str(lg) + " (operands and union at the same lg_k), " + str(card.size()) + "^2 cardinality pairs x 3 (type pair, overlap) x 3 result types");
+  S.done("lg_k " + str(lg) + " (operands at the union's lg_k" + (ndv > 1 ? ", and at +2/+0, +0/+1, +2/+1" : "") + "), " + str(card.size()) + "^2 cardinality pairs x 3 (type pair, overlap) x 3 result types");
 }
 
 // get_rel_err over its whole domain, and the pure table / interpolation functions
